@@ -329,6 +329,85 @@ fn main() {
                 }
             }
         }
+        #[cfg(any(feature = "eio", feature = "eio-async"))]
+        "eio-trace" => {
+            // C16 across builds: digests of the embedded-io traces per group; `--dump <group>` prints one line per case
+            use cbverif::eio_trace::{self as et, TApi};
+            let thorough = arg(&args, "--tier").as_deref() == Some("thorough");
+            let seed: u64 = arg(&args, "--seed").and_then(|s| s.parse().ok()).unwrap_or(20260926);
+            let prop_cases: u32 = arg(&args, "--prop-cases").and_then(|s| s.parse().ok()).unwrap_or(if thorough { 400_000 } else { 40_000 });
+            let dump = arg(&args, "--dump");
+            let apis: Vec<TApi> = [TApi::Eio, TApi::EioAsync].into_iter().filter(|a| et::api_available(*a)).collect();
+            let t0 = Instant::now();
+            let groups = et::groups(&apis, thorough, seed, prop_cases);
+            let mut gj = serde_json::Map::new();
+            let (mut evals, mut nontrivial) = (0u64, std::collections::HashSet::new());
+            let mut failure: Option<serde_json::Value> = None;
+            let mut samples: Vec<String> = Vec::new();
+            let mut tr = Vec::new();
+            for g in &groups {
+                let mut h = 0xcbf29ce484222325u64;
+                let dumping = dump.as_deref() == Some(g.name.as_str());
+                for c in &g.cases {
+                    evals += 1;
+                    match et::run_tcase(c, &mut tr, false) {
+                        Ok((d, nt)) => {
+                            h = (h ^ d).wrapping_mul(0x100000001b3);
+                            if nt {
+                                use std::hash::{Hash, Hasher};
+                                let mut hs = std::collections::hash_map::DefaultHasher::new();
+                                c.hash(&mut hs);
+                                nontrivial.insert(hs.finish());
+                                if samples.len() < 6 && evals % 9973 == 1 {
+                                    samples.push(format!("{c:?}"));
+                                }
+                            }
+                            if dumping {
+                                println!("{d:016x} {}", serde_json::to_string(c).unwrap());
+                            }
+                        }
+                        Err(m) => {
+                            if failure.is_none() {
+                                failure = Some(json!({"message": m, "case": serde_json::to_value(c).unwrap(), "group": g.name}));
+                            }
+                            if dumping {
+                                println!("FAIL {} {m}", serde_json::to_string(c).unwrap());
+                            }
+                        }
+                    }
+                }
+                gj.insert(g.name.clone(), json!({"cases": g.cases.len(), "digest": format!("{h:016x}")}));
+            }
+            if dump.is_none() {
+                let out = arg(&args, "--out").expect("--out");
+                let mut rep = json!({"evaluations": evals, "distinct_nontrivial": nontrivial.len(), "groups": gj, "samples": samples,
+                    "crate_std_feature": cfg!(feature = "cb-std"), "wall_s": t0.elapsed().as_secs_f64(), "seed": seed});
+                if let Some(f) = failure {
+                    rep["failure"] = f;
+                }
+                std::fs::write(&out, serde_json::to_string_pretty(&rep).unwrap()).unwrap();
+            }
+        }
+        #[cfg(any(feature = "eio", feature = "eio-async"))]
+        "replay-eio-trace" => {
+            // prints the full trace of one case (compared across builds by the caller); exit 1 on a model violation
+            let text = std::fs::read_to_string(&args[2]).expect("read replay file");
+            let v: serde_json::Value = serde_json::from_str(&text).expect("replay file is not JSON");
+            let c: cbverif::eio_trace::TCase = serde_json::from_value(v["case"].clone()).expect("case");
+            let mut tr = Vec::new();
+            match cbverif::eio_trace::run_tcase(&c, &mut tr, true) {
+                Ok((d, _)) => {
+                    for l in &tr {
+                        println!("TRACE {l}");
+                    }
+                    println!("DIGEST {d:016x}");
+                }
+                Err(m) => {
+                    println!("FAIL {m}");
+                    std::process::exit(1);
+                }
+            }
+        }
         "alloc" => {
             cbverif::watch::start(60);
             use cbverif::alloc_engine as ae;
